@@ -18,7 +18,6 @@ package grpcv3
 
 import (
 	"context"
-	"fmt"
 	"net/http"
 	"net/url"
 	"strings"
@@ -216,7 +215,9 @@ func (r *RequestContext) Finalize() (*envoy_auth.CheckResponse, error) {
 		cidx := 0
 
 		for k, v := range r.upstreamCookies {
-			cookies[cidx] = fmt.Sprintf("%s=%s", k, v)
+			// same encoding as used by the other entry points: characters, which are not allowed
+			// in a cookie value (like a semicolon, which would start a further cookie), are dropped
+			cookies[cidx] = (&http.Cookie{Name: k, Value: v}).String()
 			cidx++
 		}
 
